@@ -23,10 +23,21 @@ def encoded_functions():
             R._on_timeout, R._on_speculative_execute, R.send_request, R._query, R.result, R.add_callback, R.add_errback]
 
 
-def h_history(V, steps=4, spec=0, hosts=2, responses=('rows', 'read_timeout', 'syntax'), calls=2, defunct=True):
+def h_history(V, steps=4, spec=0, hosts=2, responses=('rows', 'read_timeout', 'syntax'), calls=2, defunct=True, race=False):
     run = Run(V, n_hosts=hosts, responses=responses, decisions=(RETRY, RETHROW, IGNORE, NEXT), levels=(None,),
               spec_attempts=spec, idempotent=spec > 0, allow_defunct=defunct, max_policy_calls=calls)
     rf = run.rf
+    if race:
+        # general pre-emption: at any lock acquire/release of any driver function, while the running thread holds no
+        # lock, another thread performs one of the enabled events (a response, a timer, a queued task, a socket error)
+        from harness import kit
+        pre = kit.Preempter(V, None, lambda *a: run.step('pre%d' % pre.used), only_unlocked=True, enabled=lambda: bool(run.enabled()))
+        rf._callback_lock = kit.SchedLock('callback_lock', pre)
+        for c in run.world.w.conns:
+            c.lock = kit.SchedLock('connection.lock', pre)
+        for pool in run.world.pools.values():
+            pool._lock = kit.SchedLock('pool._lock', pre)
+            pool._stream_available_condition = kit.VirtualCondition(pool._lock)
     rf.send_request()
     fired_timeout = [False]
     for i in range(steps):
@@ -112,4 +123,8 @@ def jobs(tier):
                           dict(steps=steps, spec=spec, hosts=3 if (th or spec == 2) else 2, responses=resp, calls=3 if th else 2),
                           dict(o, pin={'ev0': first})))
     js.append(Job('callback-race', 'h_callback_race', {}))
+    if th:
+        for first in range(3):
+            js.append(Job('any-race-f%d' % first, 'h_history', dict(steps=4, spec=1, hosts=2, responses=('rows', 'read_timeout'), calls=2, race=True),
+                          dict(max_seconds=1200, pin={'ev0': first}, max_paths=300000)))
     return js
